@@ -94,7 +94,7 @@ func runC06(c *mon.Ctx) {
 	ts := baseTime.UnixMilli()
 	reps := 24 // identical in every shard; cases are dealt to shards by c.Mine
 	if c.Thorough() {
-		reps = 480
+		reps = 4000
 	}
 	caseNo := 0
 	for _, ver := range versions {
